@@ -270,7 +270,7 @@ func cmdCheck(args []string) {
 		path := filepath.Join(verifRoot(), "replays", name)
 		b, _ := json.MarshalIndent(min, "", " ")
 		os.WriteFile(path, b, 0o644)
-		fmt.Printf("violation class=%s count=%d detail=%s\n", pv.fv.V.Class, pv.count, pv.fv.V.Detail)
+		fmt.Printf("violation class=%s signature=%q count=%d detail=%s\n", pv.fv.V.Class, pv.fv.V.Signature, pv.count, pv.fv.V.Detail)
 		line := fmt.Sprintf("VIOLATION property=%s replay=%s", p.ID(), path)
 		fmt.Println(line)
 		vlines = append(vlines, line)
